@@ -139,11 +139,21 @@ prop('C06',
      assumes=['A-FS', 'A-POOL', 'A-IO', 'A-SCHED'],
      not_decided='the healer itself (ArchiveHealer.Do / processWound / heal / healOne and ctxcopy are not under contract yet); the interleaving of validator and healer on the same tree; that the zip holds the signed content; the resulting directory')
 
+ARCHIVER = [('/archiver', 'ExtractZip'), ('/archiver', 'ExtractZip$3'), ('/archiver', 'ExtractZip$7'), ('/archiver', 'Mkdir'), ('/archiver', 'CompressTar$2')]
+
+prop('C19',
+     functions=ARCHIVER + [('/ctxcopy', 'DoBuffer')],
+     assumes=['A-FS (os.MkdirAll, os.Open, io.Copy: unmodelled, `modifies heap`)', 'A-SCHED (the worker goroutines of ExtractZip run the literals of the fork group)',
+              'in-context contracts of filepath.Rel, tar.Writer.WriteHeader and FileMode.IsRegular in the tar walk (ghost counters)',
+              'frames of the ownership analysis are syntactic: captured variables and the pointers held in them, not what is reachable beyond'],
+     not_decided='the round trip itself (archive codecs archive/zip, archive/tar, compress/* are outside /repo); the on-disk state after a kill at an arbitrary point (no crash model in this family: what is proved is that the resume file only ever names an index below which every entry completed); symlink targets, modes')
+
 # properties with a registered check
-CLAIMED = {'C18', 'C04', 'C09', 'C17', 'C11', 'C08', 'C01', 'C10', 'C12', 'C07', 'C14', 'C13', 'C05', 'C16', 'C06'}
+CLAIMED = {'C19', 'C18', 'C04', 'C09', 'C17', 'C11', 'C08', 'C01', 'C10', 'C12', 'C07', 'C14', 'C13', 'C05', 'C16', 'C06'}
 # reasons for properties not claimed (kept current)
 NOT_APPLICABLE = {}
 LEVEL_TEXT = {
+ 'C19': {'text': 'Proof of the function-level clauses: every variable shared by the extraction workers is accessed under the common mutex (ownership obligations over the fork group); the resume file is only written with an index below which every entry has completed (markDone invariant: nextIndex advances over a contiguous completed prefix); Mkdir creates the whole path (os.MkdirAll with the destination path, never os.Mkdir); the tar walk emits a header for every regular file other than the root, empty or not; ctxcopy.DoBuffer reports the bytes written and stops on cancellation.', 'design_ref': 'DESIGN.md §5 C19'},
  'C18': {'text': 'Proof (modular, unbounded in write slicing and sizes): drip.Write/Close keep the ghost relation between accepted, validated and forwarded bytes for every slicing; the validate closure advances the block index once per call and emits one wound per call; ValidateAsWound/AsError decide exactly healthyBlock and report the signed block range.', 'design_ref': 'DESIGN.md §5 C18, App. A.2'},
  'C09': {'text': 'Proof: every byte a safekeeper Read hands out without error is a byte of the signed file (validated block + aligned read), nothing beyond the signed length is handed out, io.EOF is only reported at the signed end, the verdict cache only remembers valid for blocks that are on disk unchanged, and an undamaged file is never rejected at any offset 0..S.', 'design_ref': 'DESIGN.md §5 C09'},
  'C17': {'text': 'Proof: skipFile consumes exactly the rest of the series up to and including its end marker for either series kind (stream-grammar ghost + protobuf cross-decoding facts) and touches neither pool nor bowl (frame); Resume checks the header index and kind before consulting the whitelist, skips only unlisted files, processes only listed ones, and counts exactly the processed files.', 'design_ref': 'DESIGN.md §5 C17, App. A.5'},
